@@ -8,7 +8,7 @@ from iOpt.solver import Solver
 
 LEVEL = "exploration"
 RULE = ("programs [construct, DoGlobalIteration(1)..., Solve] of 2-4 solver instances are interleaved in one thread. ALL interleavings are executed for 2 solvers x 4 "
-        "steps (70) and 3 x 2 (90) in quick, plus 2 x 6 (924), 3 x 3 (1680), 4 x 2 (2520) in thorough, over scenario tuples in which one solver's optimum is its "
+        "steps (70) and 3 x 2 (90) in quick, plus 2 x 6 (924), 3 x 3 (1680), 4 x 2 (2520), 2 x 8 (12870) and 3 x 4 (34650) in thorough, over scenario tuples in which one solver's optimum is its "
         "first trial (the shared-default mechanisms bite there), all 70 schedules of 2 x 4 steps for sibling tuples that differ in exactly one attribute (density, r, eps, objective, box, budget, nothing, proxies around one shared shipped problem object, or the very same Problem object handed to both solvers; one solver of such a pair also runs DoLocalRefinement in between), plus random long interleavings with construction-only intruders. After the schedule every solver's "
         "call log, search information and result must equal its solo run, and every Solution captured when it was returned must still report what it reported then. "
         "Non-trivial: >= 2 solvers really interleaved; distinct = (tuple index, schedule).")
@@ -120,11 +120,11 @@ def all_interleavings(k, steps):
 
 def cases(tier, seed):
     out = []
-    spaces = [(2, 4), (3, 2)] if tier == "quick" else [(2, 4), (3, 2), (2, 6), (3, 3), (4, 2)]
+    spaces = [(2, 4), (3, 2)] if tier == "quick" else [(2, 4), (3, 2), (2, 6), (3, 3), (4, 2), (2, 8), (3, 4)]
     ti = 0
     for (k, steps) in spaces:
         scheds = list(all_interleavings(k, steps))
-        ntuples = 3 if tier == "quick" else 2
+        ntuples = 3 if tier == "quick" else (1 if len(scheds) > 10000 else 2)
         for tup in range(ntuples):
             blk = 35 if len(scheds) <= 100 else 120
             for a in range(0, len(scheds), blk):
@@ -138,7 +138,7 @@ def cases(tier, seed):
             out.append({"kind": "shared", "tuple": 500 + tup, "seed": seed, "scheds": scheds[a:a + 35], "space": len(scheds), "mode": ["default", "shared"][(tup // 3) % 2]})
     # sibling tuples (copies differing in exactly one attribute): all 70 schedules of 2 x 4 steps per attribute, 3 x 2 for the density
     scheds = list(all_interleavings(2, 4))
-    reps = 1 if tier == "quick" else 4
+    reps = 1 if tier == "quick" else 12
     for rep in range(reps):
         for ai, attr in enumerate(SIBLING_ATTRS):
             for a in range(0, len(scheds), 35):
@@ -148,7 +148,7 @@ def cases(tier, seed):
         for ai, attr in enumerate(["m", "inner"]):
             for a in range(0, len(scheds3), 45):
                 out.append({"kind": "siblings", "k": 3, "steps": 2, "attr": attr, "tuple": 900 + 4 * rep + ai, "seed": seed, "scheds": scheds3[a:a + 45], "space": len(scheds3)})
-    nr = 60 if tier == "quick" else 2500
+    nr = 60 if tier == "quick" else 6000
     for i in range(nr):
         out.append({"kind": "random", "i": i, "seed": seed, "tuple": 1000 + i, "first_best": i % 2 == 0})
     return out
@@ -455,7 +455,7 @@ def run_case(c):
 def finalize(obs, tier, stats):
     need = {"quick": {"interleavings_2x4": 70 * 3, "interleavings_3x2": 90 * 3},
             "thorough": {"interleavings_2x4": 140, "interleavings_3x2": 180, "interleavings_2x6": 924 * 2, "interleavings_3x3": 1680 * 2,
-                         "interleavings_4x2": 2520 * 2}}[tier]
+                         "interleavings_4x2": 2520 * 2, "interleavings_2x8": 12870, "interleavings_3x4": 34650}}[tier]
     for k, v in need.items():
         if obs.get(k, 0) != v:
             return "schedule space %s not exhausted: %d of %d" % (k, obs.get(k, 0), v), {}
